@@ -147,6 +147,39 @@ def scenarios():
         gout.update({"%s/app/app.go" % g: "package main\n\nfunc main() {}\n",
                      "%s/app/wire.go" % g: INJ + "package main\n\nimport (\n\t\"example.com/l/%s/lib\"\n\t\"%s\"\n)\n\nfunc initX() *lib.Store {\n\tpanic(wire.Build(%s))\n}\n" % (g, W, expr)})
         add("E-internal-package-of-the-library-%s" % g, "E", gout, "./%s/app" % g, None, ["C01", "C13", "C19"], reject=rxi)
+    # ---------------- graph H: forms the generator does not write
+    # wire dot-imported, Bind in its value form, the concrete type from a struct provider offering both forms
+    add("H-dot-imported-bind-value-form", "H", {
+        "h1/app/main.go": ("package main\n\nimport \"fmt\"\n\ntype Shape interface{ Area() int }\ntype Circle struct{ R int }\n\nfunc (c Circle) Area() int { return 3 * c.R * c.R }\n\n"
+                           "type UsesShape struct{ Kind string }\ntype UsesPtr struct{ P *Circle }\ntype Both struct {\n\tS UsesShape\n\tP UsesPtr\n}\n\n"
+                           "func NewUsesShape(s Shape) UsesShape { return UsesShape{Kind: fmt.Sprintf(\"%T/%d\", s, s.Area())} }\nfunc NewUsesPtr(c *Circle) UsesPtr { c.R = 100; return UsesPtr{P: c} }\n"
+                           "func NewBoth(p UsesPtr, s UsesShape) Both { return Both{S: s, P: p} }\n\nfunc main() { b := initBoth(); fmt.Println(b.S.Kind, b.P.P.R) }\n"),
+        "h1/app/wire.go": INJ + ("package main\n\nimport . \"%s\"\n\nfunc initBoth() Both {\n\tpanic(Build(Value(2), Struct(new(Circle), \"R\"), Bind(new(Shape), new(Circle)), NewUsesShape, NewUsesPtr, NewBoth))\n}\n") % W,
+    }, "./h1/app", "main.Circle/12 100", ["C02", "C11"])
+    # FieldsOf on a pointer to a struct that is an injector argument: the pointer to the field aliases the argument
+    add("H-pointer-to-field-of-an-injector-argument", "H", {
+        "h2/app/main.go": ("package main\n\nimport \"fmt\"\n\ntype DB struct{ DSN string }\ntype Config struct {\n\tDB    DB\n\tLabel string\n}\ntype Svc struct {\n\tDB *DB\n\tL  string\n}\n\n"
+                           "func NewSvc(db *DB, l string) *Svc { return &Svc{DB: db, L: l} }\nfunc NewConfig() *Config { return &Config{DB: DB{DSN: \"p\"}, Label: \"lp\"} }\n\n"
+                           "func main() {\n\tcfg := &Config{DB: DB{DSN: \"a\"}, Label: \"la\"}\n\ts := initFromArg(7, cfg)\n\ts.DB.DSN = \"written\"\n\tt := initFromProvider()\n"
+                           "\tfmt.Println(s.L, s.DB == &cfg.DB, cfg.DB.DSN, t.L, t.DB.DSN)\n}\n"),
+        "h2/app/wire.go": INJ + ("package main\n\nimport \"%s\"\n\nvar set = wire.NewSet(wire.FieldsOf(new(*Config), \"DB\", \"Label\"), NewSvc)\n\n"
+                                 "func initFromArg(unrelated int, cfg *Config) *Svc {\n\tpanic(wire.Build(set))\n}\n\nfunc initFromProvider() *Svc {\n\tpanic(wire.Build(set, NewConfig))\n}\n") % W,
+    }, "./h2/app", "la true written lp p", ["C12", "C02"])
+    # a directory whose name is not its package's name, next to a package that has that name
+    add("H-directory-named-unlike-its-package", "H", {
+        "h3/foo/foo.go": "package foo\n\ntype T struct{ N int }\n",
+        "h3/foo2/x.go": "package foo\n\nimport first \"example.com/l/h3/foo\"\n\nfunc NewT(n int) first.T { return first.T{N: n + 1} }\n\nvar Forty = 40\n",
+        "h3/app/main.go": "package main\n\nimport \"fmt\"\n\nvar foo = 1\n\nfunc main() { fmt.Println(\"t\", initT().N + foo, initN()) }\n",
+        "h3/app/wire.go": INJ + ("package main\n\nimport (\n\tone \"example.com/l/h3/foo\"\n\ttwo \"example.com/l/h3/foo2\"\n\t\"%s\"\n)\n\n"
+                                 "func initT() one.T {\n\tpanic(wire.Build(two.NewT, wire.Value(two.Forty)))\n}\n\nfunc initN() int {\n\tpanic(wire.Build(wire.Value(two.Forty)))\n}\n") % W,
+    }, "./h3/app", "t 42 40", ["C14", "C01"])
+    # ... and alone, its package name taken by a package-level identifier: the invented alias equals the directory name
+    add("H-directory-named-like-the-invented-alias", "H", {
+        "h4/foo2/x.go": "package foo\n\nvar Forty = 40\n\nfunc NewS(n int) string { return \"s\" }\n",
+        "h4/app/main.go": "package main\n\nimport \"fmt\"\n\nvar foo = 2\n\nfunc main() { fmt.Println(\"n\", initN() + foo, initS()) }\n",
+        "h4/app/wire.go": INJ + ("package main\n\nimport (\n\ttwo \"example.com/l/h4/foo2\"\n\t\"%s\"\n)\n\n"
+                                 "func initN() int {\n\tpanic(wire.Build(wire.Value(two.Forty)))\n}\n\nfunc initS() string {\n\tpanic(wire.Build(two.NewS, wire.Value(two.Forty)))\n}\n") % W,
+    }, "./h4/app", "n 42 s", ["C14", "C01"])
     return S
 
 
